@@ -106,12 +106,12 @@ class BlockLoop(LoopSpec):
     def run_for(self, interp, s, fr, it):
         c = ctx()
         u = self.unit
-        gx, gy, gz = fr.lookup("gx"), fr.lookup("gy"), fr.lookup("gz")
+        gx, gy, gz = fr.contract_lookup("gx"), fr.contract_lookup("gy"), fr.contract_lookup("gz")
         G = gx * gy * gz
         u.G = G
-        buf0 = fr.lookup("buf")
+        buf0 = fr.contract_lookup("buf")
         c.prove("base:header-table-allocated(len(buf)==8*G)", buf0.len == 8 * G, kind="invariant")
-        c.prove("base:lut-map-empty", fr.lookup("stored_lut_offsets") == {}, kind="invariant")
+        c.prove("base:lut-map-empty", fr.contract_lookup("stored_lut_offsets") == {}, kind="invariant")
         # ---- arbitrary iteration
         z, y, x = c.int("z", inp=True), c.int("y", inp=True), c.int("x", inp=True)
         c.assume(And(z >= 0, z < gz, y >= 0, y < gy, x >= 0, x < gx))
@@ -179,9 +179,9 @@ class EncodeChannelStep(Contract):
         (bx, by, bz), dt = self.cfg
         isz = np.dtype(dt).itemsize
         z, y, x = self.block_index
-        gx, gy = fr.lookup("gx"), fr.lookup("gy")
+        gx, gy = fr.contract_lookup("gx"), fr.contract_lookup("gy")
         G, L = self.G, self.L
-        buf1, buf2 = self.buf1, fr.lookup("buf")
+        buf1, buf2 = self.buf1, fr.contract_lookup("buf")
         lin = x + gx * (y + gy * z)
         h = 8 * lin
         ok = isinstance(buf2, SBytes)
@@ -196,11 +196,11 @@ class EncodeChannelStep(Contract):
         q4, r4 = c.divmod(buf2.len, 4)
         c.prove("I1:length-stays-a-multiple-of-4", r4 == 0, kind="invariant")
         # what was computed for this block
-        lookup = fr.lookup("lookup_table")
-        inverse = fr.lookup("encoded_values")
-        bits = fr.lookup("bits")
-        block = fr.lookup("block")
-        lut_bytes = fr.lookup("lut_bytes")
+        lookup = fr.contract_lookup("lookup_table")
+        inverse = fr.contract_lookup("encoded_values")
+        bits = fr.contract_lookup("bits")
+        block = fr.contract_lookup("block")
+        lut_bytes = fr.contract_lookup("lut_bytes")
         U = lookup.shape[0]
         pk = [x_ for x_ in c.calls_log if x_[0] == PackAbs.target]
         c.prove("values-packed-exactly-once-from-the-inverse-indices", len(pk) == 1 and pk[0][1]["values"] is inverse and pk[0][1]["bits"] == bits, kind="invariant")
@@ -214,8 +214,8 @@ class EncodeChannelStep(Contract):
         # header words
         w0 = read_uint(buf2, h, 4)
         w1 = read_uint(buf2, h + 4, 4)
-        toff = fr.lookup("lookup_table_offset")
-        voff = fr.lookup("encoded_values_offset")
+        toff = fr.contract_lookup("lookup_table_offset")
+        voff = fr.contract_lookup("encoded_values_offset")
         c.prove("header:word0==table-offset|bits<<24", w0 == toff + bits * (1 << 24), kind="invariant")
         c.prove("header:table-offset-fits-24-bits", And(toff >= 0, toff < (1 << 24)), kind="invariant")
         c.prove("header:word1==values-offset", w1 == voff, kind="invariant")
